@@ -1077,7 +1077,7 @@ def main(run):
     nh = 48
     hjobs = [['work_hostile', {'indexes': idx[k::nh], 'outside': k == 0}] for k in range(nh) if idx[k::nh]]
     fjobs = []
-    for fam, nchunks in (('targets', 32), ('del', 24), ('chars', 24), ('growth', 40), ('calls', 48), ('chains', 26), ('flatscopes', 40), ('namespace', 32), ('flat', 10 ** 6)):
+    for fam, nchunks in (('targets', 32), ('del', 24), ('chars', 24), ('growth', 40), ('calls', 48), ('chains', 26), ('flatscopes', 40), ('namespace', 32), ('blank', 16), ('flat', 10 ** 6)):
         cases = ci.family(fam, run.tier)
 
         def fcost(i, cases=cases):
